@@ -26,6 +26,10 @@ type c03Spec struct {
 	Park    string `json:"park,omitempty"`    // drop | busy
 	Abandon string `json:"abandon,omitempty"` // send | timeout
 	Order   string `json:"order,omitempty"`   // both | stale-only
+	// sendfail mode
+	Fail    string `json:"fail,omitempty"`    // senddl | close | recvdl | nopeers
+	Wait    string `json:"wait,omitempty"`    // busy | nopipe
+	Release string `json:"release,omitempty"` // before | after
 }
 
 func TestMain(m *testing.M) { hx.Main(m) }
@@ -62,9 +66,23 @@ func TestC03(t *testing.T) {
 	for i := 0; i < r.Pick(12, 400); i++ {
 		cases = append(cases, mon.CaseSpec{Name: "replyrace", Spec: c03Spec{Mode: "replyrace", NCtx: 1 + i%2, NPipes: 1, NOps: 250}})
 	}
+	for rep := 0; rep < r.Pick(6, 200); rep++ {
+		for _, wait := range []string{"busy", "nopipe"} {
+			for _, fail := range []string{"senddl", "close", "recvdl", "nopeers"} {
+				if fail == "nopeers" && wait == "nopipe" {
+					continue // with no connection at all such a Send is refused at once, it never waits
+				}
+				for _, rel := range []string{"before", "after"} {
+					cases = append(cases, mon.CaseSpec{Name: "sendfail", Spec: c03Spec{Mode: "sendfail", Fail: fail, Wait: wait, Release: rel}})
+				}
+			}
+		}
+	}
 	r.Run(cases, func(c *mon.Case) {
 		sp := c.Spec.(c03Spec)
 		switch sp.Mode {
+		case "sendfail":
+			c03SendFail(c, sp)
 		case "replyrace":
 			c03ReplyRace(c, sp)
 		case "ended":
